@@ -1143,6 +1143,49 @@ mod fuse {
             )
         }
     }
+
+    /// Verification hooks (add-only): build a shard/edge logic directly from
+    /// its parameters, bypassing `set_up_shards` / `set_up_graphs`.
+    #[cfg(feature = "sux_verif")]
+    impl FuseLge3Shards {
+        pub fn verif_from_parts(shard_bits_shift: u32, log2_seg_size: u32, l: u32) -> Self {
+            Self {
+                shard_bits_shift,
+                log2_seg_size,
+                l,
+            }
+        }
+
+        pub fn verif_parts(&self) -> (u32, u32, u32) {
+            (self.shard_bits_shift, self.log2_seg_size, self.l)
+        }
+    }
+
+    #[cfg(feature = "sux_verif")]
+    impl FuseLge3NoShards {
+        pub fn verif_from_parts(log2_seg_size: u32, l: u32) -> Self {
+            Self { log2_seg_size, l }
+        }
+
+        pub fn verif_parts(&self) -> (u32, u32) {
+            (self.log2_seg_size, self.l)
+        }
+    }
+
+    #[cfg(feature = "sux_verif")]
+    impl FuseLge3FullSigs {
+        pub fn verif_from_parts(shard_bits_shift: u32, log2_seg_size: u32, l: u32) -> Self {
+            Self(FuseLge3Shards::verif_from_parts(
+                shard_bits_shift,
+                log2_seg_size,
+                l,
+            ))
+        }
+
+        pub fn verif_parts(&self) -> (u32, u32, u32) {
+            self.0.verif_parts()
+        }
+    }
 }
 
 pub use fuse::*;
